@@ -1,6 +1,7 @@
 import Skv.Lemmas.PipelinePermits
 import Skv.Lemmas.LockOrder
 import Skv.Lemmas.Stall
+import Skv.Lemmas.PipeTerm
 import Skv.Props.C05
 /-!
 # C17 — commits and shutdown always complete; no internal queue overflows
@@ -185,3 +186,172 @@ example :
     let s := SState.run {} [.stall, .register 0, .read 0, .clear, .signal, .await 0, .register 0, .read 0]
     s.blocked 0 = false ∧ s.phase 0 = .returned true := by decide
 example : (SState.run {} [.stall, .register 0, .read 0, .await 0]).blocked 0 = true := by decide
+
+
+/-! ## the commit pipeline cannot get stuck -/
+
+/-- the liveness invariant (`LInv`, Lemmas/PipeLive.lean) holds in every reachable state: every
+unapplied queue entry has a thread working on it, an applied head has a publisher about to look at it,
+every batch somebody waits for is still in the queue or in a publisher's hands, and every permit is
+accounted for by a thread inside its critical section or by a batch that has not both returned and
+been dropped -/
+theorem C17_liveness_invariant (n gc p c : Nat) (ops : List POp) :
+    LInv p (proj ((PState.initWith n gc p c).run ops)) ∧ ReqInv ((PState.initWith n gc p c).run ops) := by
+  suffices ∀ s, LInv p (proj s) → ReqInv s → LInv p (proj (s.run ops)) ∧ ReqInv (s.run ops) from
+    this _ (linv_init_like p _ rfl rfl rfl rfl (by
+      intro k t hk
+      simp only [PState.initWith, PState.init] at hk
+      rw [List.getElem?_replicate] at hk
+      split at hk
+      · cases hk; rfl
+      · cases hk)) (reqInv_init n)
+  induction ops with
+  | nil => intro s h hr; exact ⟨h, hr⟩
+  | cons op ops ih =>
+    intro s h hr
+    cases op with
+    | begin i req => exact ih _ (linv_begin_step p s h i req) (reqInv_begin s hr i req)
+    | step i => exact ih _ (linv_step p s h hr i) (reqInv_step s hr i)
+
+/-- **C17 (the commit pipeline never deadlocks).** In every reachable state — any number of
+committers, any interleaving, any pattern of conflicts, WAL failures and apply failures — as long as
+some `commit()` call is in progress, some thread can take a step that changes the state: no set of
+calls wait for each other (for a permit, for the head of the queue, for a completion) for ever. -/
+theorem C17_pipeline_progress (n gc p c : Nat) (hp : 0 < p) (hpc : p ≤ c) (ops : List POp)
+    (hbusy : ∃ (i : Nat) (t : Thread), ((PState.initWith n gc p c).run ops).threads[i]? = some t ∧ t.pc ≠ .ready) :
+    ∃ i, ((PState.initWith n gc p c).run ops).stepThread i ≠ (PState.initWith n gc p c).run ops := by
+  obtain ⟨hL, _⟩ := C17_liveness_invariant n gc p c ops
+  have hnp : ((PState.initWith n gc p c).run ops).panicked = false := (C17_invariant n gc p c hpc ops).2.1
+  revert hbusy hL hnp
+  generalize (PState.initWith n gc p c).run ops = s
+  intro hbusy hL hnp
+  refine Classical.byContradiction fun hno => ?_
+  have hall : ∀ i, s.stepThread i = s := fun i => Classical.byContradiction fun h => hno ⟨i, h⟩
+  have hq : quiet (proj s) := by
+    intro k cc hk
+    simp only [proj, List.getElem?_map] at hk
+    cases ht : s.threads[k]? with
+    | none => simp [ht] at hk
+    | some t =>
+      simp [ht] at hk
+      subst hk
+      rcases stuck_cases s k t hnp ht (hall k) with h1 | ⟨st, h1, _⟩ | ⟨f, h1, h2⟩
+      · left; rw [h1]; rfl
+      · right; left; rw [h1]; rfl
+      · right; right
+        refine ⟨f, by rw [h1]; rfl, ?_⟩
+        intro hm
+        obtain ⟨pr, hpr, hf⟩ := List.mem_map.mp hm
+        simp only [PState.completedRes] at h2
+        have : s.completed.find? (fun q => q.1 == f) = none := by
+          cases hfind : s.completed.find? (fun q => q.1 == f) with
+          | none => rfl
+          | some x => simp [hfind] at h2
+        have := List.find?_eq_none.mp this pr hpr
+        simp [hf] at this
+  obtain ⟨hcls, hperm⟩ := quiet_impossible p (proj s) hL hq
+  obtain ⟨i, t, ht, hne⟩ := hbusy
+  have hc := hcls i (cls t.pc) (proj_th s i t ht)
+  rcases stuck_cases s i t hnp ht (hall i) with h1 | ⟨st, h1, h2⟩ | ⟨f, h1, _⟩
+  · exact hne h1
+  · have : (proj s).permits = s.permits := rfl
+    omega
+  · rw [h1] at hc
+    rcases hc with hc | hc <;> cases hc
+
+/-- non-vacuity: two committers, the second one's batch applied first; after the steps below thread 1
+waits for its completion while thread 0 is about to publish — a call is in progress and a step exists -/
+example :
+    let s := (PState.initWith 2 1024 7 8).run
+      [.begin 0 { keys := [1] }, .begin 1 { keys := [2] }, .step 0, .step 0, .step 1, .step 1, .step 1, .step 1, .step 1, .step 1]
+    (s.threads.map (fun t => t.pc.gate)) = ["apply_entry:0", "idle"] ∧ s.queue.length = 2 ∧
+      (s.stepThread 0).threads.map (fun t => t.pc.gate) ≠ s.threads.map (fun t => t.pc.gate) := by decide
+
+
+/-! ## … and every call in progress comes to an end -/
+
+theorem PState.run_append (s : PState) (a b : List POp) : s.run (a ++ b) = (s.run a).run b := by
+  induction a generalizing s with
+  | nil => rfl
+  | cons x xs ih => exact ih _
+
+/-- a schedule every step of which changes the state -/
+def allEffective : PState → List Nat → Prop
+  | _, [] => True
+  | s, i :: is => s.stepThread i ≠ s ∧ allEffective (s.stepThread i) is
+
+def PState.runSched (s : PState) (sched : List Nat) : PState := s.run (sched.map POp.step)
+
+/-- **C17 (bounded work).** From any reachable state, with no new calls arriving, no schedule can
+take more than `measure` state-changing steps: threads cannot keep each other busy for ever
+(no livelock), whatever the interleaving. -/
+theorem C17_effective_steps_bounded (n gc p c : Nat) (hpc : p ≤ c) (ops : List POp) (sched : List Nat)
+    (h : allEffective ((PState.initWith n gc p c).run ops) sched) :
+    sched.length ≤ ((PState.initWith n gc p c).run ops).measure := by
+  induction sched generalizing ops with
+  | nil => exact Nat.zero_le _
+  | cons i is ih =>
+    obtain ⟨hne, hrest⟩ := h
+    have hrun : (PState.initWith n gc p c).run (ops ++ [.step i]) =
+        ((PState.initWith n gc p c).run ops).stepThread i := by rw [PState.run_append]; rfl
+    have hnp : (((PState.initWith n gc p c).run ops).stepThread i).panicked = false := by
+      rw [← hrun]; exact (C17_invariant n gc p c hpc _).2.1
+    have hdec := step_decreases _ i hne hnp
+    have := ih (ops ++ [.step i]) (by rw [hrun]; exact hrest)
+    rw [hrun] at this
+    simp only [List.length_cons]
+    omega
+
+/-- **C17 (every call returns).** From any reachable state there is a schedule — in fact every
+schedule that keeps choosing a thread that can move is one, by the two theorems above — after which
+every `commit()` call in progress has returned. -/
+theorem C17_all_calls_return (n gc p c : Nat) (hp : 0 < p) (hpc : p ≤ c) (ops : List POp) :
+    ∃ sched : List Nat, allEffective ((PState.initWith n gc p c).run ops) sched ∧
+      ∀ t ∈ (((PState.initWith n gc p c).run ops).runSched sched).threads, t.pc = .ready := by
+  -- induction on the measure
+  suffices ∀ (m : Nat) (ops : List POp), ((PState.initWith n gc p c).run ops).measure ≤ m →
+      ∃ sched : List Nat, allEffective ((PState.initWith n gc p c).run ops) sched ∧
+        ∀ t ∈ (((PState.initWith n gc p c).run ops).runSched sched).threads, t.pc = .ready from
+    this _ ops (Nat.le_refl _)
+  intro m
+  induction m with
+  | zero =>
+    intro ops hm
+    by_cases hall : ∀ t ∈ ((PState.initWith n gc p c).run ops).threads, t.pc = .ready
+    · exact ⟨[], trivial, hall⟩
+    · exfalso
+      have : ∃ (i : Nat) (t : Thread), ((PState.initWith n gc p c).run ops).threads[i]? = some t ∧ t.pc ≠ .ready := by
+        refine Classical.byContradiction fun hno => hall ?_
+        intro t ht
+        obtain ⟨i, hi, hget⟩ := List.getElem_of_mem ht
+        refine Classical.byContradiction fun hne => hno ⟨i, t, ?_, hne⟩
+        rw [List.getElem?_eq_getElem hi, hget]
+      obtain ⟨i, hne⟩ := C17_pipeline_progress n gc p c hp hpc ops this
+      have hrun : (PState.initWith n gc p c).run (ops ++ [.step i]) =
+          ((PState.initWith n gc p c).run ops).stepThread i := by rw [PState.run_append]; rfl
+      have hnp : (((PState.initWith n gc p c).run ops).stepThread i).panicked = false := by
+        rw [← hrun]; exact (C17_invariant n gc p c hpc _).2.1
+      have := step_decreases _ i hne hnp
+      omega
+  | succ m ih =>
+    intro ops hm
+    by_cases hall : ∀ t ∈ ((PState.initWith n gc p c).run ops).threads, t.pc = .ready
+    · exact ⟨[], trivial, hall⟩
+    · have : ∃ (i : Nat) (t : Thread), ((PState.initWith n gc p c).run ops).threads[i]? = some t ∧ t.pc ≠ .ready := by
+        refine Classical.byContradiction fun hno => hall ?_
+        intro t ht
+        obtain ⟨i, hi, hget⟩ := List.getElem_of_mem ht
+        refine Classical.byContradiction fun hne => hno ⟨i, t, ?_, hne⟩
+        rw [List.getElem?_eq_getElem hi, hget]
+      obtain ⟨i, hne⟩ := C17_pipeline_progress n gc p c hp hpc ops this
+      have hrun : (PState.initWith n gc p c).run (ops ++ [.step i]) =
+          ((PState.initWith n gc p c).run ops).stepThread i := by rw [PState.run_append]; rfl
+      have hnp : (((PState.initWith n gc p c).run ops).stepThread i).panicked = false := by
+        rw [← hrun]; exact (C17_invariant n gc p c hpc _).2.1
+      have hdec := step_decreases _ i hne hnp
+      obtain ⟨sched, he, hr⟩ := ih (ops ++ [.step i]) (by rw [hrun]; omega)
+      refine ⟨i :: sched, ⟨hne, by rw [← hrun]; exact he⟩, ?_⟩
+      have : ((PState.initWith n gc p c).run ops).runSched (i :: sched) =
+          ((PState.initWith n gc p c).run (ops ++ [.step i])).runSched sched := by
+        rw [hrun]; rfl
+      rw [this]; exact hr
